@@ -253,6 +253,17 @@ pub fn run_points(run: &mut Run, o: &Objects) {
                 c.extend(be48(&BigUint::from(x)));
                 c[0] = (c[0] & 0x1f) | 0x80 | sign;
                 run.g2_case(0, &c, "small-x");
+                // the same point (when it exists) uncompressed: G2 checks the subgroup here too
+                if let Some(pt) = Option::<G2Affine>::from(G2Affine::from_bytes_unchecked(&{
+                    let mut r = <G2Affine as GroupEncoding>::Repr::default();
+                    r.as_mut().copy_from_slice(&c);
+                    r
+                })) {
+                    run.g2_case(1, pt.to_uncompressed().as_ref(), "small-x-uncompressed");
+                }
+                let mut slot = c.clone();
+                slot.extend_from_slice(&[0u8; 96]);
+                run.g2_case(1, &slot, "small-x-in-slot");
             }
         }
     }
